@@ -198,7 +198,7 @@ impl<T: UniMerge + UniIngest> SerChunky for U<T> {
         serde_json::from_str(s).map(U).map_err(|e| e.to_string())
     }
 }
-impl<H: Hist> SerChunky for HistChunk<H> {
+impl<H: Hist + serde::Serialize + serde::de::DeserializeOwned> SerChunky for HistChunk<H> {
     fn to_json(&self) -> Result<String, String> {
         serde_json::to_string(&self.0).map_err(|e| e.to_string())
     }
